@@ -118,6 +118,20 @@ def run(ctx):
     import pipe, re as _re
     chars = [("'%s'" % c, ord(c)) for c in "AZaz09 !#$%&()*+,-./:;<=>?@[]^_`{|}~\u00e9\u00ff\u0100\u03bb\u20ac\u4e2d\U0001f600"] + \
             [("'\\n'", 10), ("'\\t'", 9), ("'\\0'", 0), ("'\\\\'", 92), ("'\\''", 39), ("'\\r'", 13)]
+    # \uXXXX escapes: exactly four hexadecimal digits (either letter case) denote that code point; anything else in one of
+    # the four places - a sign, a space, a letter beyond f, an underscore, too few digits - and the surrogates are not
+    # characters and must be rejected, never read as some number (round 8: from_str_radix accepts a leading '+')
+    for h in ("0041", "00e9", "00E9", "03bb", "20AC", "ffff", "FFFD", "0000", "007f", "d7ff", "e000", "aBcD"):
+        chars.append(("'\\u%s'" % h, int(h, 16)))
+    for h in ("d800", "dfff", "DBFF"):
+        chars.append(("'\\u%s'" % h, None))
+    for pos in range(4):
+        for ch in "+-gGxX_ .,'\"#\u00e9":
+            h = list("0041")
+            h[pos] = ch
+            chars.append(("'\\u%s'" % "".join(h), None))
+    for h in ("", "4", "41", "041", "+41", "0x41"):
+        chars.append(("'\\u%s'" % h, None))
     ccmds = [lib.store_cmd("parse", pipe.single("li t0, %s\n" % lit), "a.s") for lit, _ in chars]
     ci, cm = lib.run_impl(ctx, ccmds, tag="impl-char"), lib.run_model(ctx, ccmds, tag="model-char")
     evaluations += len(ccmds)
@@ -125,6 +139,12 @@ def run(ctx):
         if a != b:
             disagreements.append(dict(profile="debug", cmd="parse li t0, " + lit, text=lit, impl=a[:200], model=b[:200]))
         m = _re.search(r"N\(iarith addi@\S+ 5@\S+ 0@\S+ (-?\d+)@", a)
+        if val is None:
+            if m or "E(" not in a:
+                failing.append(dict(profile="debug", literal=lit, impl=a[:300], spec="none",
+                                    why="%s is not a well-formed character literal; the analyzer read %s%s" % (
+                                        lit, m.group(1) if m else "nothing", "" if "E(" in a else " and reported no error")))
+            continue
         if "E(" in a and not m:
             continue          # a literal the lexer rejects is reported, not misread
         if not m or int(m.group(1)) != val:
